@@ -163,6 +163,58 @@ pub fn run(ctx: &Ctx) -> i32 {
             acc.merge(a);
         }
     }
+    // code with long runs of trailing zero bytes (the analysis pads with 33 zero bytes): every head of length <= 2
+    // over {00, 5b, 60, 7f, ff} x 0..=70 trailing zeros
+    {
+        let heads: Vec<Vec<u8>> = {
+            let al = [0x00u8, 0x5b, 0x60, 0x7f, 0xff];
+            let mut v = vec![vec![]];
+            for a in al {
+                v.push(vec![a]);
+                for b in al {
+                    v.push(vec![a, b]);
+                }
+            }
+            v
+        };
+        for h in &heads {
+            for zeros in 0..=70usize {
+                let mut b = h.clone();
+                b.extend(std::iter::repeat(0u8).take(zeros));
+                acc.evaluations += 1;
+                acc.transitions += 1;
+                for (k, m) in check_bytes(&b) {
+                    acc.violation(Violation { key: k, msg: m, case: json!({"code": hex::encode(&b)}) });
+                }
+                if zeros % 16 == 0 {
+                    acc.distinct(&b);
+                }
+            }
+        }
+    }
+    // EOF containers, complete and with a truncated data section (which decoding accepts), with and without
+    // sub-containers: every data shape x every truncation of the data section
+    {
+        use crate::props::c26::Cont;
+        let sub = Cont::simple(vec![0x00], 0).raw();
+        for subs in [vec![], vec![sub.clone()]] {
+            for declared in [0u16, 1, 4, 32] {
+                for present in 0..=declared {
+                    let mut c = Cont::simple(vec![0xfe], 0);
+                    c.containers = subs.clone();
+                    c.data = vec![0xaa; present as usize];
+                    c.data_hdr = declared;
+                    let b = c.raw();
+                    acc.evaluations += 1;
+                    acc.transitions += 1;
+                    for (k, m) in check_bytes(&b) {
+                        acc.violation(Violation { key: k, msg: m, case: json!({"code": hex::encode(&b)}) });
+                    }
+                    acc.distinct(&b);
+                }
+            }
+        }
+    }
     // a few valid EOF containers
     for hexs in ["ef000101000402000100010400000000800000fe", "ef00010100040200010001040000000080000000"] {
         let b = hex::decode(hexs).unwrap();
@@ -203,7 +255,7 @@ pub fn run(ctx: &Ctx) -> i32 {
     acc.sample(|| json!({"code":"7f5b"}));
     acc.sample(|| json!({"address": Address::repeat_byte(0xef)}));
     let meta = Meta {
-        rule: "all byte strings of length <= 2 over all bytes, <= 6/8 over {00,5b,60,7f,ef,ff}, ef00||x and ef01||x for |x| <= 2/3 over all bytes, 22/23/24-byte ef01 strings, two valid EOF containers, 300 addresses; distinct = sampled distinct inputs (every 4099th) plus addresses".into(),
+        rule: "all byte strings of length <= 2 over all bytes, <= 6/8 over {00,5b,60,7f,ef,ff}, ef00||x and ef01||x for |x| <= 2/3 over all bytes, 22/23/24-byte ef01 strings, heads of length <= 2 followed by 0..=70 zero bytes, EOF containers with every truncation of 4 data sizes with and without a sub-container, 300 addresses; distinct = sampled distinct inputs (every 4099th) plus addresses".into(),
         assumptions: vec!["keccak256 (alloy/tiny-keccak) is trusted as the hash".into()],
         bounds: json!({"spaces": spaces.iter().map(|(a, l, p)| format!("{}^<= {} after 0x{}", a.len(), l, hex::encode(p))).collect::<Vec<_>>(), "addresses": addrs.len()}),
         min_distinct: 50,
